@@ -7,7 +7,7 @@ G = None
 def register(progs, g):
     global G
     G = g
-    progs.update({'C17': prog_C17, 'C03': prog_C03, 'C16': prog_C16, 'C01': prog_C01, 'C02': prog_C02, 'C08': prog_C08, 'C09': prog_C09, 'C10': prog_C10, 'C15': prog_C15, 'C18': prog_C18, 'C07': prog_C07, 'C11': prog_C11, 'C13': prog_C13, 'C14': prog_C14, 'C12': prog_C12})
+    progs.update({'C17': prog_C17, 'C03': prog_C03, 'C16': prog_C16, 'C01': prog_C01, 'C02': prog_C02, 'C08': prog_C08, 'C09': prog_C09, 'C10': prog_C10, 'C15': prog_C15, 'C18': prog_C18, 'C07': prog_C07, 'C11': prog_C11, 'C13': prog_C13, 'C14': prog_C14, 'C12': prog_C12, 'C20': prog_C20})
 
 
 def plain_diff(ops_path, a_path, b_path, limit=40):
@@ -324,3 +324,21 @@ def prog_C12(ctx):
     generic(ctx, ['Dc4bcVerif.Props.C12'], 'airdiff', 'air', ['C12'], AIR_TRUSTED,
             'ceremonies (3,2),(2,2) [thorough: +(4,3),(3,3)]; per ceremony one participant: restart before every operation, and (sampled in quick, all in thorough) kill-before-log and kill-after-log at every operation, plus one run restarting after every step; two clones fed the same operations',
             cov_from_stats=air_cov)
+
+
+def prog_C20(ctx):
+    def cov(ctx, st):
+        ctx.cov.update(evaluations=st['Ops'] + st['Reinits'], distinct_nontrivial=st['HashEditKinds'] + st['Scenarios'], exhaustive=False,
+                       reinitialisations=st['Reinits'], hash_edits=st['HashEdits'], driver_notes=(st.get('Notes') or [])[:10])
+    generic(ctx, ['Dc4bcVerif.Props.C20', 'Dc4bcVerif.Props.C12', 'Dc4bcVerif.Props.C08'], 'reinitdiff', 'reinit', ['C20'],
+            ['translator: the order in which CalcStartReInitDKGMessageHash writes the fields (Gen/NodeGlue.lean reinitHashOrder), regenerated on every run; order_matches_source is kernel-evaluated',
+             'reinitdiff: a completed real ceremony (signing batches and junk on the board, incl. a forged decline every original node rejected) is re-initialised from a dump of its board on fresh nodes with new communication keys and fresh airgapped databases with the same mnemonics, through GenerateReDKGMessage (+ GetAdaptedReDKG on dumps stripped of self-confirmations), ReInitDKG, the reinit operation and the airgapped replay; every node must end signing-ready with the same participants, threshold and public polynomial, every machine with the same share, a batch signed afterwards must verify (prysm) under the ORIGINAL group key; the confirmation hash must be the same on every node and change under every single-field edit (the Lean model of the hashed byte string must agree on every edit)',
+             'assumed: SHA-1 collision resistance; %d rendering injective; the glue of reinitDKG / handleReinitDKG is exercised, not modelled'],
+            'three ceremonies quick [(3,2) plain; (2,2) with signing batches and junk; (3,2) junk + 0.1.4 adaptation], seven thorough; per file: every header and participant field, and 7 fields of 12 (quick) or all (thorough) messages, messages of other rounds first',
+            cov_from_stats=cov)
+    # the node side of a crafted reinit message (other rounds untouched) is probed by nodediff
+    res = run_linediff(ctx, 'nodediff', 'node')
+    if res is not None:
+        for mline in (res['stats'].get('Monitors') or []):
+            if 'reinit' in mline and (mline.startswith('C08 ') or mline.startswith('C18 ')):
+                ctx.violations.append(dict(kind='impl-counterexample', driver='nodediff', what='C20 ' + mline))
